@@ -44,7 +44,8 @@ class ListWrapper(typing.MutableSequence[T]):
     def __init__(self, *args: typing.Iterable[T]):
         self._data: typing.List[T] = []
         for values in args:
-            for value in values:
+            # snapshot: see extend()
+            for value in list(values):
                 self.append(value)
 
     def _add(self, value: T) -> None:
@@ -162,7 +163,9 @@ class ListWrapper(typing.MutableSequence[T]):
     # extend is not in every version of Python 3, so list wrapper adds it here
     # itself.
     def extend(self, other: typing.Iterable[T]) -> None:
-        for v in other:
+        # Take a snapshot first: other may be (a view of) another owning
+        # collection, which shrinks while its values are moved into this one.
+        for v in list(other):
             self.append(v)
 
     def reverse(self) -> None:
@@ -194,7 +197,8 @@ class SetWrapper(typing.MutableSet[T]):
     def __init__(self, *args: typing.Iterable[T]):
         self._data: typing.Set[T] = set()
         for arg in args:
-            for v in arg:
+            # snapshot: see update()
+            for v in list(arg):
                 self.add(v)
 
     @classmethod
@@ -245,8 +249,21 @@ class SetWrapper(typing.MutableSet[T]):
     def __ior__(  # type: ignore
         self: _SetWrapperSelf, other: typing.AbstractSet[T]
     ) -> _SetWrapperSelf:
-        for value in other:
-            self.add(value)
+        self.update(other)
+        return self
+
+    def __ixor__(  # type: ignore
+        self: _SetWrapperSelf, other: typing.AbstractSet[T]
+    ) -> _SetWrapperSelf:
+        if other is self:
+            self.clear()
+        else:
+            # snapshot: see update()
+            for value in list(other):
+                if value in self:
+                    self.discard(value)
+                else:
+                    self.add(value)
         return self
 
     def pop(self) -> T:
@@ -267,7 +284,9 @@ class SetWrapper(typing.MutableSet[T]):
     # For whatever reason, update isn't included as part of abc.MutableSet.
     def update(self, *others: typing.Iterable[T]) -> None:
         for other in others:
-            for v in other:
+            # Take a snapshot first: other may be another owning collection,
+            # which shrinks while its values are moved into this one.
+            for v in list(other):
                 self.add(v)
 
     def __str__(self) -> str:
